@@ -13,6 +13,7 @@ import (
 	"strconv"
 	"strings"
 	"sync"
+	"time"
 
 	weed_server "github.com/chrislusf/seaweedfs/weed/server"
 	"github.com/chrislusf/seaweedfs/weed/storage"
@@ -77,6 +78,32 @@ func (e *Env) ReopenSorted() error {
 	}
 	e.Kind = "sorted"
 	e.open("mem")
+	if e.Store.GetVolume(Vid) == nil {
+		return fmt.Errorf("volume not loaded")
+	}
+	return nil
+}
+
+// Reload closes the store and opens the same directory again with the same needle-map kind
+// (a volume-server restart): the in-memory map is rebuilt from the .idx log, LevelDB keeps its
+// database. For LevelDB the .idx mtime is first moved 2 s into the past: isLevelDbFresh compares
+// file mtimes (coarse kernel clock), and a tie would make the restart regenerate the database
+// from the .idx on some runs and not on others; with the .idx older the normal (fresh) path is
+// taken deterministically. A volume reopened as sorted stays sorted (.dat is still 0444).
+func (e *Env) Reload() error {
+	e.Store.Close()
+	kind := e.Kind
+	if kind == "sorted" {
+		kind = "mem"
+	}
+	if kind == "ldb" {
+		idxs, _ := filepath.Glob(filepath.Join(e.Dir, "*.idx"))
+		past := time.Now().Add(-2 * time.Second)
+		for _, f := range idxs {
+			os.Chtimes(f, past, past)
+		}
+	}
+	e.open(kind)
 	if e.Store.GetVolume(Vid) == nil {
 		return fmt.Errorf("volume not loaded")
 	}
